@@ -1018,11 +1018,44 @@ def describe_src(m, v):
     return "other", v
 
 
+def elem_size_of(m, ctx):
+    """Size in bytes of T for copy_nonoverlapping::<T> (None if not a scalar we know)."""
+    t = None
+    for g in (ctx.gargs if ctx is not None else []) or []:
+        if isinstance(g, dict) and g.get("ty"):
+            t = g["ty"]
+    if t is None:
+        return None
+    if t.get("k") == "param" and ctx is not None and ctx.fr is not None:
+        t = ctx.fr.gmap.get(t.get("name"), t)          # T of the enclosing generic function, bound at its call site
+        if not isinstance(t, dict):
+            return None
+    if t.get("k") == "tuple" and not t.get("elems"):
+        return 0
+    ii = int_info(t, m.ptr_bits)
+    if ii:
+        return max(1, ii[0] // 8)
+    return None
+
+
 @model("std::ptr::copy_nonoverlapping", "std::intrinsics::copy_nonoverlapping", "std::ptr::copy", "std::intrinsics::copy")
 def m_copy_nonoverlapping(m, st, ctx, args, span):
     src, dst, cnt = args
     sk, sp = describe_src(m, src)
     name = ctx.name if ctx is not None else "std::ptr::copy_nonoverlapping"
+    # the count is in units of T: everything downstream (ranges written, bytes decoded, flush coverage) is in bytes
+    esz = elem_size_of(m, ctx)
+    if esz is None:
+        if ctx is not None and ctx.gargs:
+            raise Unsupported("copy_nonoverlapping of a non-scalar element type")
+        esz = 1
+    if esz != 1 and isinstance(cnt, Int):
+        cnt = Int(cnt.w, cnt.signed, binop("mul", cnt.e, const(esz, cnt.w), cnt.w)) if not cnt.is_const() else int_const(cnt.cval() * esz, cnt.w, cnt.signed)
+        if sk == "bytes":
+            if all(isinstance(x, Int) and x.w == 8 * esz for x in sp):
+                sp = [b for x in sp for b in bytes_of(x)]
+            else:
+                sk, sp = "other", src
     if isinstance(dst, Ref):
         # copy into a tracked buffer (the byte reader): the buffer now holds memory read from `src`
         tgt = deref(dst)
@@ -1037,7 +1070,7 @@ def m_copy_nonoverlapping(m, st, ctx, args, span):
         if sk == "addr":
             extra["src_ptr"] = src
         if isinstance(src, SliceRef):
-            extra["src_len"] = usize(m, src.n)
+            extra["src_len"] = usize(m, src.n * esz)
         if isinstance(src, SymSlice):
             extra["src_kind"] = "sym"
             extra["src"] = src.content
